@@ -622,7 +622,7 @@ example :
 a timer task leaves its sleep and enters `_release_idle_handler` (→ `begin_release`), an idle announcement has been
 made, at least `idle_timeout` has passed since the **last** one, and no tick has reached the run and no resume has
 happened since that announcement.  (Unlike the in-process stack this needs no hypothesis: the bookkeeping is
-synchronous, there is no query→decide window.  What can still happen *after* the attempt has begun — a tick admitted
+synchronous, there is no query→decide window.  What can still happen *after* the attempt has begun — a tick let through
 while the row said `active` arriving during the CAS — is C26's `tick_arrived_during_release`.) -/
 theorem C36_dbos_release_attempt_after_timeout (tau : Nat) (acts : List DbosTimer.Act) :
     ∀ r ∈ (DbosTimer.run (DbosTimer.init tau) acts).attempts,
